@@ -34,7 +34,7 @@ SPEC = {
     "driver": "drv_c04",
     "harness": "c04",
     "theorems": ["C04_refines", "C04_refines_all_histories", "C04_inv_reachable", "C04_wrappers_transparent",
-                 "C04_get_after_set", "C04_get_after_delete", "C04_has_iff_get", "C04_iterate_exact",
+                 "C04_get_after_set", "C04_get_after_delete", "C04_has_iff_get", "C04_has_iff_get_iff_iterated", "C04_iterate_exact",
                  "C04_deletePrefix_exact", "C04_batch_last_wins", "C04_cancel_noop", "C04_batch_handles_independent",
                  "C04_closed_everything_fails", "C04_close_is_final", "C04_copy_refines", "C04_copy_spec", "C04_prefix_range",
                  "C04_upperBound_none", "C04_concatBytes", "C04_copyBytes", "C04_readAvailable", "C04_copyBatched_loop_is_chunks", "C04_closed_forever", "C04_iterate_backward_is_reverse",
